@@ -61,6 +61,12 @@ func extraSuite(name string, g *gen, e *emitter, n int) bool {
 			roundTrip(e, c, rqs)
 			i++
 		}
+	case "schedule":
+		suiteSchedule(g, e, n)
+	case "stress":
+		suiteStress(g, e, n)
+	case "allocs":
+		suiteAllocs(e, n > 1)
 	default:
 		return false
 	}
